@@ -127,7 +127,7 @@ PROPS = {
  },
  "C08": {
   "modules": ["OsmoVerif.Props.C08", "OsmoVerif.Props.C08Inc", "OsmoVerif.Props.C08IncHist"],
-  "min_theorems": 88,
+  "min_theorems": 90,
   "fingerprints": ["CL.Keeper_*", "CL.SwapState_*"],
   "engines": [{"name": "clmath", "kind": "pure", "n": {"quick": 30000, "thorough": 400000}, "shards": {"quick": 2, "thorough": 16}},
               {"name": "cl", "kind": "app", "n": {"quick": 1500, "thorough": 20000}, "shards": {"quick": 4, "thorough": 16}, "env": NO_EXPORT_IMPORT}],
@@ -162,7 +162,7 @@ PROPS = {
                   "<= incentive balance x 1e18 x factor + 3e18 per message, hence sum of claimable <= incentive address balance for 3(#messages+#positions) < factor; emission accounting "
                   "per record: remaining = max(initial - sum of slots, 0), slot = floor(ns*1e9*rate/1e18) only for syncing messages with >= 1 unit of liquidity after the start; idle time "
                   "emits nothing and does not consume the record",
-                  "PARTIAL: the dust bound in the other direction for incentives (forfeits of collectIncentives stay in the address by design), second incentive claim = 0 and the "
+                  "second incentive claim = 0; PARTIAL: the dust bound in the other direction for incentives (forfeits of collectIncentives stay in the address by design) and the "
                   "converse of the slot characterisation up to the three silent Dec-overflow skips are not theorems: oracles incentives:* on the real keeper"],
   "explanation": "history model FOp/applyF/runF over CLFees.Fees; the pool component of every message is exactly the CLPool operation (C07's Inv carries over); invariant FullInv "
                  "by induction; growth inside expressed as insideI(cur, G, out(lower), out(upper)) with three laws (grow, flip on crossing, keep in bucket) and the fold over the swap "
